@@ -773,6 +773,25 @@ def corpus_cases(prop: str, tier: str) -> List[Dict[str, Any]]:
         if extra:
             case["extra_files"] = extra
         out.append(case)
+    # the harness's own corpus of shapes in which what one operation needs depends on what another one already made the generator do (fragments shared in part,
+    # unpacked here and inherited there, conditional here and plain there, root-type fragments, one union walked with different member sets): every document is run
+    # in its written order, reversed, and in seeded shuffles of its definitions - each operation's behaviour must be the same in all of them
+    import random as _random
+    own = Path(__file__).resolve().parent.parent / "corpus"
+    for d in sorted(own.iterdir()) if own.is_dir() else []:
+        try:
+            sdl = (d / "schema.graphql").read_text(encoding="utf-8")
+            defs = [print_ast(x) for x in parse((d / "queries.graphql").read_text(encoding="utf-8")).definitions]
+        except Exception:  # noqa: BLE001
+            continue
+        orders = [("written", defs), ("reversed", defs[::-1])]
+        for k in range(4 if tier == "thorough" else 2):
+            sh = list(defs)
+            _random.Random(1000 + k).shuffle(sh)
+            orders.append(("shuffle%d" % k, sh))
+        for k, (label, ds) in enumerate(orders):
+            out.append({"seed": 0, "idx": 950000 + len(out), "dirty": ["frag.inline.on_interface"], "cfg": CONFIGS[k % len(CONFIGS)], "props": [prop], "tier": tier,
+                        "corpus": "%s/%s" % (d.name, label), "_sdl": sdl, "_queries": "\n\n".join(ds), "_features": ["corpus.%s.%s" % (d.name, label)], "_no_regen": True})
     return out
 
 
@@ -796,7 +815,7 @@ def run_shared(prop: str, tier: str, seed: int, n_cases: int, rule: str, floors:
             case_hook(c, i)
         cases.append(c)
 
-    if prop in ("C01", "C02", "C04"):
+    if prop in ("C01", "C02", "C04", "C05"):
         cases.extend(corpus_cases(prop, tier))
 
     def on_result(case, res):
